@@ -393,6 +393,14 @@ def specialise_enum(fn, is_x, variants, name):
     """Edges that cannot be taken when the enum-typed term selected by is_x holds variant `name`."""
     cut = []
     for (gb, gi, g) in all_guards(fn):
+        if g.kind == "bool" and g.term[0] == "call" and g.term[1] and g.term[1].split("::")[-1] in ("is_none", "is_some", "is_ok", "is_err") and len(g.term[2]) == 1:
+            # opt.is_none() / res.is_ok(): a test of the variant spelled as a call
+            if not is_x(strip_refs(g.term[2][0])):
+                continue
+            asked = {"is_none": "None", "is_some": "Some", "is_ok": "Ok", "is_err": "Err"}[g.term[1].split("::")[-1]]
+            if asked in variants and ((asked == name) != bool(g.truth)):
+                cut.append((gb, gi))
+            continue
         if g.kind == "bool" and g.term[0] == "cmp":
             if not (is_x(strip_refs(g.term[2])) or is_x(strip_refs(g.term[3]))):
                 continue
@@ -402,6 +410,80 @@ def specialise_enum(fn, is_x, variants, name):
         if a is False:
             cut.append((gb, gi))
     return resolve_bool_temps(fn, cut)
+
+
+def _edge_decided_false(g):
+    """is the switch edge g untakeable because its subject is a constant?  (True / None = cannot say)"""
+    t = strip_refs(g.term)
+    if g.kind == "bool":
+        if t[0] == "c" and isinstance(t[1], int):
+            return bool(t[1]) != bool(g.truth)
+        if t[0] == "cmp" and t[2][0] == "c" and t[3][0] == "c" and isinstance(t[2][1], int) and isinstance(t[3][1], int):
+            a, b = t[2][1], t[3][1]
+            r = {"Eq": a == b, "Ne": a != b, "Lt": a < b, "Le": a <= b, "Gt": a > b, "Ge": a >= b}.get(t[1])
+            return None if r is None else (r != bool(g.truth))
+        return None
+    if g.kind == "value" and t[0] == "c" and isinstance(t[1], int) and isinstance(g.value, int):
+        return t[1] != g.value
+    if g.kind == "notvalues" and t[0] == "c" and isinstance(t[1], int):
+        return t[1] in tuple(g.others)
+    if g.kind in ("variant", "variants") and t[0] == "agg" and t[1] == "Adt" and t[2]:
+        nm = t[2].split("::")[-1]
+        return (nm != g.variant) if g.kind == "variant" else (nm not in tuple(g.variant))
+    return None
+
+
+def restricted_view(fn, cut_edges, rounds=6):
+    """A copy of fn in which the given switch edges cannot be taken: they lead nowhere, blocks that become unreachable are
+    emptied (so their definitions no longer count: a variable set once per arm of a cut `match` is single-definition in the
+    view and its term resolves), tests that a constant now decides are decided too (iterated), and casts / arithmetic of
+    constants fold.  Block and local numbers are those of fn.  The view is what fn *is* under the premise the cut expresses
+    ("the volume is FAT16"); rules written for per-type arms can be run on it unchanged."""
+    import copy
+    from .mir import Fn
+    raw = copy.deepcopy(fn.raw)
+    B = raw["blocks"]
+    sink = len(B)
+    B.append({"stmts": [], "term": {"k": "Unreachable", "sp": B[0]["term"]["sp"]}, "cleanup": False})
+
+    def redirect(b, i):
+        t = B[b]["term"]
+        if t["k"] == "SwitchInt":
+            if i < len(t["targets"]):
+                t["targets"][i] = [t["targets"][i][0], sink]
+            else:
+                t["otherwise"] = sink
+        elif t["k"] in ("Goto", "Call", "Assert", "Drop") and i == 0:
+            t["target"] = sink
+    for (b, i) in cut_edges:
+        redirect(b, i)
+    view = None
+    for _round in range(rounds):
+        # a switch with one way left is no test any more
+        for blk in B:
+            t = blk["term"]
+            if t["k"] == "SwitchInt":
+                outs = {tb for _v, tb in t["targets"]} | {t["otherwise"]}
+                outs.discard(sink)
+                if len(outs) == 1:
+                    blk["term"] = {"k": "Goto", "target": outs.pop(), "sp": t["sp"], "decided": True}
+        view = Fn(raw, fn.facts)
+        view.fold_casts = True
+        view.view_of = fn
+        live = view.live_blocks()
+        for bi, blk in enumerate(B):
+            if bi not in live and not blk.get("cleanup") and (blk["stmts"] or blk["term"]["k"] != "Unreachable"):
+                blk["stmts"] = []
+                blk["term"] = {"k": "Unreachable", "sp": blk["term"]["sp"]}
+        view = Fn(raw, fn.facts)
+        view.fold_casts = True
+        view.view_of = fn
+        more = [(b, i) for (b, i, g) in all_guards(view) if view.succ(b)[i][0] != sink and _edge_decided_false(g)]
+        if not more:
+            break
+        for (b, i) in more:
+            redirect(b, i)
+    return view
 
 
 def resolve_bool_temps(fn, cut, fold=None):
